@@ -25,6 +25,7 @@ import (
 
 	"raven/internal/delivery/lmtp"
 	"raven/internal/sasl"
+	"raven/internal/server/extension"
 	"raven/verifh/hx"
 	"raven/verifh/world"
 )
@@ -250,6 +251,16 @@ func main() {
 	var checks []func(string)
 	ask := func(op string, f func(ans string)) { ops = append(ops, op); checks = append(checks, f) }
 
+	// the limit of a silent IDLE is a duration the code compares with, not a read deadline: it is tied to the model as it
+	// stands in the source and then scaled like the deadlines
+	idleLimit := extension.IdleTimeout
+	ask("t.bound imapIdle 0", func(ans string) {
+		if want := fmt.Sprint(idleLimit.Milliseconds() + 550); ans != want {
+			rep.Violate("broken-correspondence", "IDLE limit vs Model/Lifetime.idleLimitMs (Props.C20.deadlines)", fmt.Sprintf("extension.IdleTimeout is %v (+ one 550 ms round = %s ms), the model's bound is %s ms", idleLimit, want, ans), nil)
+		}
+	})
+	extension.IdleTimeout = idleLimit / scale
+
 	only := map[string]bool{}
 	if o.Replay != "" {
 		for _, l := range hx.ReadLines(o.Replay) {
@@ -345,37 +356,22 @@ func main() {
 					}
 					ask(fmt.Sprintf("t.deadline %s %d", st, lmtpTimeout), func(ans string) {
 						rep.Hit("deadline:" + st + "=" + ans)
-						want := ans
-						if st == "imapIdle" {
-							want = "50" // the poll; the model's `none` is about the overall limit
-						}
-						if fmt.Sprint(obsMs) != want {
+						if fmt.Sprint(obsMs) != ans {
 							rep.Violate("broken-correspondence", "read deadline vs Model/Lifetime.deadlineMs (Props.C20.deadlines)", fmt.Sprintf("%s: the server waits with a read deadline of %d ms, the model says %s", id, obsMs, ans), replay)
 						}
 					})
-					var boundAns string
-					ask(fmt.Sprintf("t.bound %s %d", st, lmtpTimeout), func(ans string) { boundAns = ans })
-					_ = boundAns
 					// wait: the model's bound for this state, scaled, plus slack
 					bound := map[string]time.Duration{"imapCmd": 30 * time.Minute, "imapLiteral": 35 * time.Minute, "imapAuthWait": 30*time.Minute + 30*time.Second,
-						"lmtpCmd": time.Duration(lmtpTimeout) * time.Second, "lmtpData": 2 * time.Duration(lmtpTimeout) * time.Second}[st]
-					if st == "imapIdle" {
-						// no overall limit in the code: after the equivalent of an hour of silence the session is still there
-						select {
-						case <-done:
-							rep.Hit("silent-idle:ended")
-						case <-time.After(3 * time.Second):
-							rep.Finding("C20-F1", fmt.Sprintf("a client that falls silent inside IDLE is never logged off: %s still running after %d polls, the only read deadline requested is the 50 ms poll", id, conn.count()-mark), replay)
+						"imapIdle": idleLimit, "lmtpCmd": time.Duration(lmtpTimeout) * time.Second, "lmtpData": 2 * time.Duration(lmtpTimeout) * time.Second}[st]
+					ask(fmt.Sprintf("t.bound %s %d", st, lmtpTimeout), func(ans string) {
+						if st != "imapIdle" && ans != fmt.Sprint(bound.Milliseconds()) {
+							rep.Violate("broken-correspondence", "model", fmt.Sprintf("t.bound %s = %s, the harness waits for %d ms", st, ans, bound.Milliseconds()), replay)
 						}
-						b.Close()
-						select {
-						case <-done:
-						case <-time.After(5 * time.Second):
-							rep.Violate("impl-violation", "disconnect ends the session (Props.C20.eof_closes)", id+": closed after the silence, handler still running 5 s later", replay)
-						}
-						break
-					}
+					})
 					wait := bound/scale + 1500*time.Millisecond
+					if st == "imapIdle" {
+						wait += 2 * time.Second // the rounds of the IDLE loop (500 ms sleep, 50 ms read) run in real time
+					}
 					select {
 					case <-done:
 						rep.Hit("silent:ended")
@@ -383,9 +379,12 @@ func main() {
 						if el+40*time.Millisecond < lastD/scale {
 							rep.Violate("broken-correspondence", "timing", fmt.Sprintf("%s: session ended after %v, before its deadline %v/%d", id, el, lastD, scale), replay)
 						}
+						if st == "imapIdle" && el+150*time.Millisecond < idleLimit/scale {
+							rep.Violate("broken-correspondence", "timing", fmt.Sprintf("%s: the idling session was ended after %v, before the limit %v/%d", id, el, idleLimit, scale), replay)
+						}
 					case <-time.After(wait):
 						n, g := ravenGoroutines()
-						rep.Violate("impl-violation", "silence ends the session (Props.C20.silence_closes_partial)", fmt.Sprintf("%s: silent in state %s for the equivalent of %v (model bound %v) and the handler is still running (%d goroutines in service code: %s)", id, st, wait*scale, bound, n, g), replay)
+						rep.Violate("impl-violation", "silence ends the session (Props.C20.silence_closes / idle_silence_closes)", fmt.Sprintf("%s: silent in state %s for the equivalent of %v (model bound %v) and the handler is still running (%d goroutines in service code: %s)", id, st, wait*scale, bound, n, g), replay)
 						b.Close()
 						<-done
 					}
